@@ -6,13 +6,15 @@ For a list of HARMLESS changes of src/cli/src/keyring.rs the translator tools/rs
 and the equality proofs (KestrelProofs.KeyringSrc, KestrelProps.KeyringSrc) must still build; for a list of BREAKING changes the
 translator must refuse (exit 3) or the proofs must fail to build.  Takes no arguments; standard library only.
 
-  * the changes are: every seeded/B*-b*/patch.diff (harmless: B6-b1 .. b3) and every seeded/C*-m*/patch.diff (breaking) whose diff
+  * the changes are: every seeded/B*-b*/patch.diff (harmless: B6-b1 .. b6) and every seeded/C*-m*/patch.diff (breaking) whose diff
     touches keyring.rs (the others are counted as "not applicable"), and the hand-made edits listed in HAND below (text substitutions; some of them
     are applied on top of a seeded harmless patch: "a harmless rewrite with a mistake in it");
   * every change is applied to a scratch copy of repo-src/, translated with KESTREL_REPO=<scratch> into a scratch copy of the lake
     project (lean/ with its build directory, one copy per worker), and built there with `lake build <modules>`;
   * everything lives in a temporary directory created inside this working copy and removed at the end; repo-src/ and the
     committed lean/ (incl. lean/KestrelModel/GeneratedKeyring.lean) are only read;
+  * for `base` and the seeded harmless patches the modules that use the generated keyring functions (KestrelProps.Source and the
+    KestrelProps.Cli*Src modules) are built as well (SELFTEST_DOWNSTREAM=0 switches that off);
   * row `base` is the unchanged source: it must translate to exactly the committed generated file and build -- without it a
     broken proof file would make every breaking row "fail to build" for the wrong reason;
   * exit status 0 iff every row is as expected.   Environment: SELFTEST_JOBS=<n> workers (default 4), SELFTEST_KEEP=1 keeps the
@@ -29,6 +31,9 @@ TRANSLATED = [REL]
 TRANSLATOR = os.path.join(ROOT, 'tools', 'rs2lean_keyring.py')
 GENERATED = os.path.join('KestrelModel', 'GeneratedKeyring.lean')
 MODULES = ['KestrelProofs.KeyringSrc', 'KestrelProps.KeyringSrc']
+# the modules that USE the generated keyring functions (the capstone and the translated CLI): built as well for the seeded harmless patches
+DOWNSTREAM = ['KestrelProps.Source', 'KestrelProps.CliSrc', 'KestrelProps.CliCmdSrc', 'KestrelProps.CliFullSrc', 'KestrelProps.CliGenKeySrc',
+              'KestrelProps.CliStreamSrc']
 
 # ---------------------------------------------------------------------------------------------- hand-made edits
 # (name, kind, seeded patch applied first or None, [(old, new, number of occurrences expected)], what it is)
@@ -253,6 +258,35 @@ HOIST_DERIVE = [('    /// Decrypt a private key.\n', DERIVE_KEY, 1),
                 ('        let key = kestrel_crypto::scrypt(password, salt, SCRYPT_N, SCRYPT_R, SCRYPT_P, 32);\n        let key = Zeroizing::new(key);\n',
                  '        let key = Keyring::derive_key(password, salt);\n', 1)]
 
+# ---- `let (a, b) = match (x, y) { (P, Q) => (v, w), .. => { return .. } };` (seeded/B6-b4) and `let (a, b) = if c { .. } else { .. };`
+B4_PK_ARM = '''            (Some(_), None) => {
+                return Err(KeyringError::ParseConfig(
+                    "Key must have a PublicKey".into(),
+                ));
+            }
+'''
+DEC_LEN_AND_SPLIT = '''        if enc_pk_bytes.len() < PUBLIC_KEY_LEN {
+            return Err(KeyringError::PublicKeyLength);
+        }
+        let pk = &enc_pk_bytes[..32];
+        let checksum = &enc_pk_bytes[32..];
+'''
+DEC_LET_IF_RETURN = '''        let (pk, checksum) = if enc_pk_bytes.len() < PUBLIC_KEY_LEN {
+            return Err(KeyringError::PublicKeyLength);
+        } else {
+            enc_pk_bytes.split_at(32)
+        };
+'''
+DEC_SPLIT = '''        let pk = &enc_pk_bytes[..32];
+        let checksum = &enc_pk_bytes[32..];
+'''
+DEC_LET_IF_PURE = '''        let (pk, checksum) = if enc_pk_bytes.len() == 36 {
+            enc_pk_bytes.split_at(32)
+        } else {
+            (&enc_pk_bytes[..32], &enc_pk_bytes[32..])
+        };
+'''
+
 HAND = [
     # ---- harmless, in the spirit of seeded/B*
     ('H1-rename-cleaned_line', 'harmless', None, [('cleaned_line', 'stripped', 13)],
@@ -379,6 +413,36 @@ HAND = [
             private_key,
         };
 ''', 1)], 'add_key copies the optional private key with an `if let` expression'),
+    # ---- the tuple `let` with a `match` / `if` initialiser whose arms yield a tuple or leave the function (seeded/B6-b4 is the harmless use)
+    ('H28-let-tuple-if-return', 'harmless', None, [(DEC_LEN_AND_SPLIT, DEC_LET_IF_RETURN, 1)],
+     'decode_public_key: length test and split as one `let (pk, checksum) = if short { return Err } else { split_at(32) };`'),
+    ('H29-let-tuple-if-pure', 'harmless', None, [(DEC_SPLIT, DEC_LET_IF_PURE, 1)],
+     'decode_public_key: `let (pk, checksum) = if c { split_at(32) } else { (&b[..32], &b[32..]) };` (no early exit inside)'),
+    ('X38-b4-arm-returns-ok', 'breaking', ['B6-b4'],
+     [(B4_PK_ARM, '            (Some(_), None) => {\n                return Ok(());\n            }\n', 1)],
+     'B6-b4 whose `(Some(_), None)` arm leaves with `Ok(())`: a section without PublicKey is silently skipped'),
+    ('X39-b4-arm-yields-unwrap', 'breaking', ['B6-b4'],
+     [(B4_PK_ARM, '            (Some(name), None) => (name, key_public.unwrap()),\n', 1)],
+     'B6-b4 whose `(Some(_), None)` arm no longer returns but yields a tuple (`unwrap` of `None`: Rust panics; the totalised model adds a key)'),
+    ('X40-b4-wrong-component', 'breaking', ['B6-b4'],
+     [('            if &k.name == name {\n', '            if k.name.as_str() == public_key.as_str() {\n', 1)],
+     'B6-b4 whose duplicate-name test uses the other component of the destructured pair'),
+    ('X41-b4-arms-exchanged', 'breaking', ['B6-b4'],
+     [('            (Some(name), Some(public_key)) => (name, public_key),\n            (None, Some(_)) => {\n                return Err(KeyringError::ParseConfig("Key must have a Name".into()));\n            }\n',
+       '            (Some(name), Some(public_key)) => {\n                return Err(KeyringError::ParseConfig("Key must have a Name".into()));\n            }\n'
+       '            (None, Some(public_key)) => (&public_key.0, public_key),\n', 1)],
+     'B6-b4 with the yielding arm and a returning arm exchanged: complete keys are rejected, a key without Name is added under its public key'),
+    ('X42-let-tuple-if-swapped', 'breaking', None, [(DEC_LEN_AND_SPLIT, DEC_LET_IF_RETURN.replace('(pk, checksum)', '(checksum, pk)'), 1)],
+     'H28 with the components of the tuple pattern exchanged'),
+    ('X43-let-tuple-if-branches-exchanged', 'breaking', None,
+     [(DEC_LEN_AND_SPLIT, DEC_LET_IF_RETURN.replace('enc_pk_bytes.len() < PUBLIC_KEY_LEN', 'enc_pk_bytes.len() >= PUBLIC_KEY_LEN'), 1)],
+     'H28 with the condition negated (the returning and the yielding branch exchanged)'),
+    ('X44-let-tuple-if-pure-swapped', 'breaking', None,
+     [(DEC_SPLIT, DEC_LET_IF_PURE.replace('(pk, checksum)', '(checksum, pk)'), 1)],
+     'H29 with the components of the tuple pattern exchanged'),
+    ('X45-b5-split_at-31', 'breaking', ['B6-b5'], [('let (salt, ciphertext) = rest.split_at(32);', 'let (salt, ciphertext) = rest.split_at(31);', 1)],
+     'B6-b5 with a 31 byte salt'),
+    ('X46-b6-len-lt', 'breaking', ['B6-b6'], [('if decoded.len() != 36 {', 'if decoded.len() < 36 {', 1)], 'B6-b6 with `<` for `!=`'),
     # ---- breaking: the edits of the original robustness test
     ('X1-dup-pk-test-removed', 'breaking', None, [(DUP_PK_TEST, '', 1)], 'duplicate-public-key test of add_key removed'),
     ('X2-name-len-ge', 'breaking', None, [('name.len() > MAX_NAME_SIZE', 'name.len() >= MAX_NAME_SIZE', 1)], '`>` -> `>=`'),
@@ -536,6 +600,8 @@ class Case:
         self.translate = self.build = self.verdict = ''
         self.ok = False
         self.secs = 0.0
+        self.downstream = (kind == 'harmless' and not edits and os.environ.get('SELFTEST_DOWNSTREAM', '1') != '0'
+                           and all(os.path.exists(os.path.join(ROOT, 'lean', *m.split('.')) + '.lean') for m in DOWNSTREAM))
 
 
 def run_case(case, tmp, workers):
@@ -571,7 +637,8 @@ def run_case(case, tmp, workers):
             if case.name == 'base':
                 with open(gen, 'rb') as f1, open(os.path.join(ROOT, 'lean', GENERATED), 'rb') as f2:
                     case.translate = 'ok, = committed file' if f1.read() == f2.read() else 'ok, DIFFERS from the committed file'
-            rc2, out2 = sh(['lake', 'build'] + MODULES, w)
+            mods = MODULES + (DOWNSTREAM if case.downstream else [])
+            rc2, out2 = sh(['lake', 'build'] + mods, w)
             if rc2 == 0:
                 case.build = 'ok'
             else:
@@ -612,7 +679,7 @@ def main():
         m = re.match(r'^([BC])\d+-[bm]\d+$', d)
         if not m or not os.path.exists(p): continue
         touches = bool(files_of_patch(p) & set(TRANSLATED))
-        if m.group(1) == 'B':       # harmless maintenance changes (seeded/B6-b1 .. b3 are the ones in keyring.rs)
+        if m.group(1) == 'B':       # harmless maintenance changes (seeded/B6-b1 .. b6 are the ones in keyring.rs)
             if touches: cases.append(Case(d, 'harmless', [d], [], 'seeded harmless patch'))
             else: nb.append(d)
         elif touches:
